@@ -54,7 +54,7 @@ theorem find_setMarker_ne (s : State) (m : Marker) {d : Denom} (h : d ≠ m.deno
   simp only [State.find, State.setMarker, List.find?, hm, decide_false]
   exact find_filter_ne s.markers m.denom d h
 
-theorem find_bank (s : State) (b : Ledger) (d : Denom) : ({ s with bank := b } : State).find d = s.find d := rfl
+theorem find_bank (s : State) (b : Bank) (d : Denom) : ({ s with bank := b } : State).find d = s.find d := rfl
 
 theorem wf_setMarker {s : State} (h : WF s) (m : Marker) : WF (s.setMarker m) := by
   unfold WF State.setMarker at *
@@ -68,7 +68,7 @@ theorem wf_setMarker {s : State} (h : WF s) (m : Marker) : WF (s.setMarker m) :=
     exact this hyd
   · exact List.Nodup.sublist ((List.filter_sublist).map _) h
 
-theorem wf_bank {s : State} (b : Ledger) (h : WF s) : WF { s with bank := b } := h
+theorem wf_bank {s : State} (b : Bank) (h : WF s) : WF { s with bank := b } := h
 
 theorem find_of_mem {l : List Marker} (h : (l.map (·.denom)).Nodup) {m : Marker} (hm : m ∈ l) :
     l.find? (fun x => x.denom = m.denom) = some m := by
@@ -110,14 +110,14 @@ theorem nonneg_amountOf {cs : Coins} (h : Coins.nonneg cs = true) (d : Denom) : 
 
 /-! ### bank primitives -/
 
-theorem adjust_def (b : Ledger) (d : Denom) (x : Int) : adjustCirculation b d x =
-    if b.supply d < x then .ok (b.credit (acct d) [(d, x - b.supply d)])
+theorem adjust_def (b : Bank) (d : Denom) (x : Int) : adjustCirculation b d x =
+    if b.supply d < x then .ok (b.mintTo (acct d) [(d, x - b.supply d)])
     else if x < b.supply d then
       if b.bal (acct d) d < b.supply d - x then .error .funds
-      else .ok (b.debit (acct d) [(d, b.supply d - x)])
+      else .ok (b.burnFrom (acct d) [(d, b.supply d - x)])
     else .ok b := rfl
 
-theorem adjust_supply {b b' : Ledger} {d : Denom} {x : Int} (h : adjustCirculation b d x = .ok b') :
+theorem adjust_supply {b b' : Bank} {d : Denom} {x : Int} (h : adjustCirculation b d x = .ok b') :
     b'.supply d = x := by
   rw [adjust_def] at h
   split at h
@@ -128,7 +128,7 @@ theorem adjust_supply {b b' : Ledger} {d : Denom} {x : Int} (h : adjustCirculati
       · cases h; simp; omega
     · cases h; omega
 
-theorem adjust_supply_ne {b b' : Ledger} {d d' : Denom} {x : Int} (h : adjustCirculation b d x = .ok b')
+theorem adjust_supply_ne {b b' : Bank} {d d' : Denom} {x : Int} (h : adjustCirculation b d x = .ok b')
     (hd : d' ≠ d) : b'.supply d' = b.supply d' := by
   have hd2 : ¬ (d = d') := fun e => hd e.symm
   rw [adjust_def] at h
@@ -141,13 +141,13 @@ theorem adjust_supply_ne {b b' : Ledger} {d d' : Denom} {x : Int} (h : adjustCir
     · cases h; rfl
 
 /-- `AdjustCirculation` only ever touches the marker's own balance of its own denom. -/
-theorem adjust_bal {b b' : Ledger} {d : Denom} {x : Int} (h : adjustCirculation b d x = .ok b')
+theorem adjust_bal {b b' : Bank} {d : Denom} {x : Int} (h : adjustCirculation b d x = .ok b')
     (a : Addr) (d' : Denom) :
     b'.bal a d' = b.bal a d' + (if acct d = a ∧ d = d' then x - b.supply d else 0) := by
   rw [adjust_def] at h
   split at h
   · cases h
-    simp only [Ledger.bal_credit, Coins.amountOf_cons, Coins.amountOf_nil]
+    simp only [Bank.bal_mintTo, Coins.amountOf_cons, Coins.amountOf_nil]
     by_cases h1 : acct d = a
     · by_cases h2 : d = d'
       · subst h2; simp [h1]
@@ -157,17 +157,17 @@ theorem adjust_bal {b b' : Ledger} {d : Denom} {x : Int} (h : adjustCirculation 
     · split at h
       · cases h
       · cases h
-        simp only [Ledger.bal_debit, Coins.amountOf_cons, Coins.amountOf_nil]
+        simp only [Bank.bal_burnFrom, Coins.amountOf_cons, Coins.amountOf_nil]
         by_cases h1 : acct d = a
         · by_cases h2 : d = d'
           · subst h2; simp [h1]; omega
           · simp [h1, h2]
         · simp [h1]
     · cases h
-      have : x - supply b d = 0 := by omega
+      have : x - b.supply d = 0 := by omega
       simp [this]
 
-theorem adjust_nonneg {b b' : Ledger} {d : Denom} {x : Int} (h : adjustCirculation b d x = .ok b')
+theorem adjust_nonneg {b b' : Bank} {d : Denom} {x : Int} (h : adjustCirculation b d x = .ok b')
     (hn : NonNeg b) : NonNeg b' := by
   intro a d'
   have hb := adjust_bal h a d'
@@ -189,7 +189,7 @@ theorem adjust_nonneg {b b' : Ledger} {d : Denom} {x : Int} (h : adjustCirculati
 
 /-- a successful `adjustCirculation` down to `x ≤ supply` means the marker's own account held
 the difference -/
-theorem adjust_escrow {b b' : Ledger} {d : Denom} {x : Int} (h : adjustCirculation b d x = .ok b') :
+theorem adjust_escrow {b b' : Bank} {d : Denom} {x : Int} (h : adjustCirculation b d x = .ok b') :
     b.supply d - x ≤ b.bal (acct d) d ∨ b.supply d ≤ x := by
   rw [adjust_def] at h
   split at h
@@ -200,7 +200,7 @@ theorem adjust_escrow {b b' : Ledger} {d : Denom} {x : Int} (h : adjustCirculati
       · left; omega
     · right; omega
 
-theorem send_eq {b b' : Ledger} {f t : Addr} {cs : Coins} (h : sendCoins b f t cs = .ok b') :
+theorem send_eq {b b' : Bank} {f t : Addr} {cs : Coins} (h : sendCoins b f t cs = .ok b') :
     b' = b.move f t cs ∧ Coins.nonneg cs = true ∧
       ∀ d, Coins.amountOf cs d ≤ b.bal f d ∨ Coins.amountOf cs d = 0 := by
   unfold sendCoins at h
@@ -213,17 +213,17 @@ theorem send_eq {b b' : Ledger} {f t : Addr} {cs : Coins} (h : sendCoins b f t c
     left; simpa using this
   · right; exact amountOf_eq_zero_of_not_mem hm
 
-theorem send_supply {b b' : Ledger} {f t : Addr} {cs : Coins} (h : sendCoins b f t cs = .ok b')
+theorem send_supply {b b' : Bank} {f t : Addr} {cs : Coins} (h : sendCoins b f t cs = .ok b')
     (d : Denom) : b'.supply d = b.supply d := by
-  rw [(send_eq h).1]; exact Ledger.supply_move _ _ _ _ _
+  rw [(send_eq h).1]; exact Bank.supply_move _ _ _ _ _
 
-theorem send_bal {b b' : Ledger} {f t : Addr} {cs : Coins} (h : sendCoins b f t cs = .ok b')
+theorem send_bal {b b' : Bank} {f t : Addr} {cs : Coins} (h : sendCoins b f t cs = .ok b')
     (a : Addr) (d : Denom) :
     b'.bal a d = b.bal a d - (if f = a then Coins.amountOf cs d else 0)
       + (if t = a then Coins.amountOf cs d else 0) := by
-  rw [(send_eq h).1]; exact Ledger.bal_move _ _ _ _ _ _
+  rw [(send_eq h).1]; exact Bank.bal_move _ _ _ _ _ _
 
-theorem send_nonneg {b b' : Ledger} {f t : Addr} {cs : Coins} (h : sendCoins b f t cs = .ok b')
+theorem send_nonneg {b b' : Bank} {f t : Addr} {cs : Coins} (h : sendCoins b f t cs = .ok b')
     (hn : NonNeg b) : NonNeg b' := by
   intro a d
   rw [send_bal h a d]
@@ -234,5 +234,46 @@ theorem send_nonneg {b b' : Ledger} {f t : Addr} {cs : Coins} (h : sendCoins b f
   rcases hcov d with hc | hc
   · by_cases hf : f = a <;> by_cases ht : t = a <;> simp [hf, ht] <;> (try subst hf) <;> omega
   · rw [hc]; simp; exact h1
+
+/-! ### the supply store agrees with the balances -/
+
+theorem consistent_mintTo {b : Bank} (h : Consistent b) (a : Addr) (cs : Coins) :
+    Consistent (b.mintTo a cs) := by
+  intro d
+  have := h d
+  simp only [Bank.supply_mintTo]
+  simp only [Bank.mintTo, Ledger.supply_credit]
+  omega
+
+theorem consistent_burnFrom {b : Bank} (h : Consistent b) (a : Addr) (cs : Coins) :
+    Consistent (b.burnFrom a cs) := by
+  intro d
+  have := h d
+  simp only [Bank.supply_burnFrom]
+  simp only [Bank.burnFrom, Ledger.supply_debit]
+  omega
+
+theorem consistent_move {b : Bank} (h : Consistent b) (f t : Addr) (cs : Coins) :
+    Consistent (b.move f t cs) := by
+  intro d
+  have := h d
+  rw [Bank.supply_move]
+  simp only [Bank.move, Ledger.supply_move]
+  exact this
+
+theorem adjust_cons {b b' : Bank} {d : Denom} {x : Int} (h : adjustCirculation b d x = .ok b')
+    (hc : Consistent b) : Consistent b' := by
+  rw [adjust_def] at h
+  split at h
+  · cases h; exact consistent_mintTo hc _ _
+  · split at h
+    · split at h
+      · cases h
+      · cases h; exact consistent_burnFrom hc _ _
+    · cases h; exact hc
+
+theorem send_cons {b b' : Bank} {f t : Addr} {cs : Coins} (h : sendCoins b f t cs = .ok b')
+    (hc : Consistent b) : Consistent b' := by
+  rw [(send_eq h).1]; exact consistent_move hc _ _ _
 
 end PvProofs.MkrSupL
